@@ -35,6 +35,16 @@ def cases(tier, seed):
         c["name"] = "%04d-w%d-d%d.%d-%s%s-%s" % (k, c["dw"], c["wdepth"], c["rdepth"], c["cls"], "-rmw" if c["rmw"] else "", hex(c["base"]))
         c["cost"] = (c["nw"] + c["nr"]) * 4
         out.append(c)
+    # the bridge on a port of the real crossbar + controller + reference DRAM
+    for k in range(12 if tier == "quick" else 90):
+        r = random.Random("C09/%d/%s/core/%d" % (seed, tier, k))
+        c = dict(core=True, dw=r.choice([32, 64]), wdepth=16, rdepth=r.choice([4, 16]), base=r.choice([0, 0x10000, 0x40000000]),
+                 rmw=False, cls=CLASSES[k % len(CLASSES)], nw=r.randint(8, 14), nr=r.randint(8, 14), ready_b=r.choice([1.0, 0.6]),
+                 ready_r=r.choice([1.0, 0.6, 0.2]), long_stall=0, gap=r.choice([0, 3, 10]), cmd_ready_prob=1.0, extra_lat=(0, 0),
+                 stub_long=0, cmd_buffer_depth=r.choice([4, 8, 16]), refresh=(k % 6 != 5), seed="C09/%d/core/%d" % (seed, k))
+        c["name"] = "core%03d-w%d-d%d.%d-%s-%s" % (k, c["dw"], c["wdepth"], c["rdepth"], c["cls"], hex(c["base"]))
+        c["cost"] = (c["nw"] + c["nr"]) * 30
+        out.append(c)
     return out
 
 
@@ -88,9 +98,20 @@ def run_case(c):
             self.submodules.bridge = LiteDRAMAXI2Native(self.axi, self.port, w_buffer_depth=c["wdepth"], r_buffer_depth=c["rdepth"],
                                                         base_address=c["base"], with_read_modify_write=c["rmw"])
 
-    dut = DUT()
-    store = Store(nb)
-    stub = CoreStub([dut.port], store, r, cmd_ready_prob=c["cmd_ready_prob"], extra_lat=tuple(c["extra_lat"]), long_stall=c["stub_long"])
+    if c.get("core"):
+        from ..corebackend import CoreBackend
+        stub = CoreBackend(1, databits=dw, refresh=c["refresh"], cmd_buffer_depth=c["cmd_buffer_depth"])
+        dut = stub.dut
+        dut.axi = LiteDRAMAXIPort(data_width=dw, address_width=32, id_width=4)
+        dut.submodules.bridge = LiteDRAMAXI2Native(dut.axi, stub.ports[0], w_buffer_depth=c["wdepth"], r_buffer_depth=c["rdepth"],
+                                                    base_address=c["base"], with_read_modify_write=c["rmw"])
+        store = stub.store
+        mem_procs = stub.processes()
+    else:
+        dut = DUT()
+        store = Store(nb)
+        stub = CoreStub([dut.port], store, r, cmd_ready_prob=c["cmd_ready_prob"], extra_lat=tuple(c["extra_lat"]), long_stall=c["stub_long"])
+        mem_procs = [stub.process()]
     hot = [r.randrange(0, 1 << 8) for _ in range(4)]
     full_strb = (1 << nb) - 1
     writes, reads = [], []
@@ -151,10 +172,10 @@ def run_case(c):
             return True
         return False
 
-    cycles, reason = run_sim(dut, [stub.process()] + m.processes(), done_fn, 400000, wall_limit=900)
+    cycles, reason = run_sim(dut, mem_procs + m.processes(), done_fn, 400000, wall_limit=900)
     if reason == "wall":
         return dict(verdict="inconclusive", why="wall-clock watchdog", violations=[], stats={}, nontrivial=False, signature="")
-    v = list(stub.events) + list(m.protocol)
+    v = list(stub.events) + list(m.protocol) + (stub.dfi_events() if c.get("core") else [])
     if state.get("hang") or reason == "cycle-cap":
         v.append(dict(kind="no-progress", aw=len(m.aw_t), of_aw=len(writes), w=len(m.w_t), b=len(m.b_log), ar=len(m.ar_t),
                       of_ar=len(reads), r=len(m.r_log), of_r=total_r, native_outstanding=stub.outstanding()))
@@ -311,7 +332,7 @@ def run_case(c):
     stalled_all = all(m.stalls[k] > 0 for k in ("aw", "w", "ar")) and (m.stalls["b"] > 0 or c["ready_b"] == 1.0) and \
         (m.stalls["r"] > 0 or c["ready_r"] == 1.0)
     nontrivial = stalled_all and raw_after_b >= 1 and (wrapped >= 1 or c["cls"] in ("incr", "fixed"))
-    sig = "|".join(str(x) for x in (dw, c["wdepth"], c["rdepth"], c["rmw"], c["cls"]))
+    sig = "|".join(str(x) for x in (dw, c["wdepth"], c["rdepth"], c["rmw"], c["cls"], bool(c.get("core"))))
     return dict(verdict="violated" if v else "held", violations=v[:8], stats=st, nontrivial=bool(nontrivial) or bool(v), signature=sig)
 
 
